@@ -2,35 +2,43 @@
 (* Triggers over the tables of SQLTables (C23).
 
    A trigger (as created) is a record
-     [name, tid, timing "before"|"after", event "insert"|"update"|"delete", rel ""|"follows"|"precedes", other,
-      body [k, col, e]]
-   on the base table; bodies come from three templates
-     k = "audit"   INSERT INTO audit (tid, o1..ow, n1..nw) VALUES (<tid>, OLD.c1.., NEW.c1..)   (NULL where
-                   OLD / NEW does not exist); the audit table has an AUTO_INCREMENT sequence column, so
-                   the ORDER in which bodies ran is observable
+     [name, tid, table, timing "before"|"after", event "insert"|"update"|"delete", rel ""|"follows"|"precedes", other,
+      body]
+   whose body is a BEGIN .. END block: a sequence of 1..3 statements  [k, col, e, t, vals, op]  from the templates
+     k = "audit"   INSERT INTO audit (tid, o1..ow, n1..nw) VALUES (<tid>, OLD.c1.., NEW.c1..)   (NULL where OLD / NEW
+                   does not exist); the audit table has an AUTO_INCREMENT sequence column, so the ORDER in which
+                   statements ran is observable
      k = "set"     SET NEW.c<col> = e          (BEFORE INSERT / UPDATE only)
      k = "signal"  IF e THEN SIGNAL SQLSTATE '45000'
-   where e is an expression over the row  OLD.c1..OLD.cw ++ NEW.c1..NEW.cw  (ordinals 1..2w).
+     k = "uvar"    SET @cnt = @cnt + 1         (a user variable counts the executions)
+     k = "ins"     INSERT INTO t (c1..cw) VALUES (vals)                     -- DML on ANOTHER table t, which has its
+     k = "upd"     UPDATE t SET c3 = COALESCE(c3,0) + 1 WHERE c1 <op> e ORDER BY c1      own BEFORE / AFTER triggers
+     k = "del"     DELETE FROM t WHERE c1 <op> e ORDER BY c1                             (op: "eq" | "ge")
+   where e / vals are expressions over the row  OLD.c1..OLD.cw ++ NEW.c1..NEW.cw  (ordinals 1..2w) of the firing
+   row; they are evaluated when the statement runs and the resulting statement is an ordinary SQLTables statement.
 
    MySQL rules modelled:
-     * triggers of one (timing, event) run in creation order, FOLLOWS x / PRECEDES x placing a new trigger
+     * triggers of one (table, timing, event) run in creation order, FOLLOWS x / PRECEDES x placing a new trigger
        directly after / before x (ExecOrder);
-     * per affected row, in the statement's processing order: the BEFORE triggers in order (each sees
-       the NEW left by the previous one), then the row edit with the final NEW (NOT NULL / CHECK / key
-       checks apply to it), then the AFTER triggers in order (they see the stored row);
+     * per affected row, in the statement's processing order: the BEFORE triggers in order (each sees the NEW left
+       by the previous one), then the row edit with the final NEW (NOT NULL / CHECK / key checks apply to it), then
+       the AFTER triggers in order (they see the stored row); the statements of a body run in their order;
      * every body runs exactly once per affected row;
-     * an error in any row (SIGNAL, duplicate key, NOT NULL, ..) fails the whole statement: the base
-       table AND the audit table are unchanged.
-   Outside the fragment (not generated): rows an UPDATE leaves unchanged, UPDATE / DELETE of several
-   rows without ORDER BY over the full primary key, REPLACE / ON DUPLICATE KEY UPDATE / IGNORE,
-   triggers that modify the base table.                                                                 *)
+     * CASCADES: a DML statement inside a trigger body is a statement like any other: the triggers of ITS table
+       fire per row it affects, exactly as for a top-level statement (BEFORE / edit / AFTER, their own bodies
+       included, to any depth), wherever the statement stands in the body;
+     * an error in any row at any depth (SIGNAL, duplicate key, NOT NULL, ..) fails the whole top-level statement:
+       all tables AND the audit table are unchanged (user variables are not transactional: @cnt is left open).
+   Outside the fragment (not generated): rows an UPDATE leaves unchanged, UPDATE / DELETE of several rows without
+   ORDER BY over the full primary key, REPLACE / ON DUPLICATE KEY UPDATE / IGNORE, trigger bodies that write the
+   table whose statement fired them (MySQL rejects them), cyclic cascades.                                      *)
 EXTENDS SQLTables
 
 \* ------------------------------------------------------------------ execution order
 InsertAt(seq, pos, x) == SubSeq(seq, 1, pos - 1) \o <<x>> \o SubSeq(seq, pos, Len(seq))
 NamePos(seq, n) == IF \E i \in DOMAIN seq : seq[i].name = n THEN CHOOSE i \in DOMAIN seq : seq[i].name = n ELSE 0
 
-\* created: all triggers of the table in creation order; result: those of (timing, event) in execution order
+\* created: all triggers in creation order; result: those of (table, timing, event) in execution order
 RECURSIVE Place(_, _, _)
 Place(created, k, acc) ==
   IF k > Len(created) THEN acc
@@ -39,87 +47,116 @@ Place(created, k, acc) ==
        IN Place(created, k + 1,
                 IF p = 0 THEN Append(acc, tr)
                 ELSE IF tr.rel = "follows" THEN InsertAt(acc, p + 1, tr) ELSE InsertAt(acc, p, tr))
-ExecOrder(created, timing, event) ==
-  Place(SelectSeq(created, LAMBDA tr : tr.timing = timing /\ tr.event = event), 1, <<>>)
+ExecOrder(created, table, timing, event) ==
+  Place(SelectSeq(created, LAMBDA tr : tr.table = table /\ tr.timing = timing /\ tr.event = event), 1, <<>>)
 
-\* ------------------------------------------------------------------ running the bodies for one row
+\* ------------------------------------------------------------------ the statements of a body
 NullRowW(w) == [i \in 1..w |-> NULL]
 AuditEntry(tid, old, new) == <<I(tid)>> \o old \o new
 
-\* x = [new, aud (sequence of audit entries appended so far), err]
-RECURSIVE RunBodies(_, _, _, _)
-RunBodies(trs, k, old, x) ==
-  IF k > Len(trs) \/ x.err # "" THEN x
-  ELSE LET b == trs[k].body
-           env == old \o x.new
-       IN RunBodies(trs, k + 1, old,
-            CASE b.k = "audit" -> [x EXCEPT !.aud = Append(@, AuditEntry(trs[k].tid, old, x.new))]
-              [] b.k = "set" -> [x EXCEPT !.new[b.col] = EvRow(b.e, env)]
-              [] b.k = "signal" -> (IF IsTrue(EvRow(b.e, env)) THEN [x EXCEPT !.err = "signal"] ELSE x))
+cRef(i) == ECol(i, "none")
+PkOrder == <<Ord(1, FALSE)>>
+\* the ordinary statement a DML template denotes for the firing row (env = OLD ++ NEW)
+Instantiate(b, env) ==
+  CASE b.k = "ins" -> SInsert(b.t, "plain", [i \in DOMAIN b.vals |-> i], << [i \in DOMAIN b.vals |-> Cell(ELit(EvRow(b.vals[i], env)))] >>, <<>>)
+    [] b.k = "upd" -> SUpdate(b.t, FALSE, <<SetItem(3, EOp2("plus", [k |-> "fn", f |-> "coalesce", a |-> <<cRef(3), ELit(I(0))>>], ELit(I(1))))>>,
+                              EOp2(b.op, cRef(1), ELit(EvRow(b.e, env))), PkOrder, -1)
+    [] b.k = "del" -> SDelete(b.t, EOp2(b.op, cRef(1), ELit(EvRow(b.e, env))), PkOrder, -1)
 
-\* ------------------------------------------------------------------ statements
-\* s = [rows, aud, err]
-TInsert(T, created, stmt, rows0) ==
-  LET w == NCols(T)
-      bef == ExecOrder(created, "before", "insert")
-      aft == ExecOrder(created, "after", "insert")
+\* cx = [tabs (table -> table definition), trigs (all triggers as created)]
+\* s  = [db (table -> rows), aud (audit entries appended by the top-level statement), cnt (@cnt), err]
+RECURSIVE TStmt(_, _, _), RunBlock(_, _, _, _, _), RunTrigs(_, _, _, _, _)
+
+\* the statements k.. of trigger tr's body for the row (old, x.new); x = [new, s]
+RunBlock(cx, tr, k, old, x) ==
+  IF k > Len(tr.body) \/ x.s.err # "" THEN x
+  ELSE LET b == tr.body[k]
+           env == old \o x.new
+       IN RunBlock(cx, tr, k + 1, old,
+            CASE b.k = "audit" -> [x EXCEPT !.s.aud = Append(@, AuditEntry(tr.tid, old, x.new))]
+              [] b.k = "set" -> [x EXCEPT !.new[b.col] = EvRow(b.e, env)]
+              [] b.k = "signal" -> (IF IsTrue(EvRow(b.e, env)) THEN [x EXCEPT !.s.err = "signal"] ELSE x)
+              [] b.k = "uvar" -> [x EXCEPT !.s.cnt = @ + 1]
+              [] b.k \in {"ins", "upd", "del"} -> [x EXCEPT !.s = TStmt(cx, Instantiate(b, env), x.s)])
+
+\* the triggers k.. of trs (in execution order) for one row
+RunTrigs(cx, trs, k, old, x) ==
+  IF k > Len(trs) \/ x.s.err # "" THEN x
+  ELSE RunTrigs(cx, trs, k + 1, old, RunBlock(cx, trs[k], 1, old, x))
+
+\* ------------------------------------------------------------------ statements (top-level or inside a body)
+TInsert(cx, stmt, s0) ==
+  LET t == stmt.t
+      T == cx.tabs[t]
+      w == NCols(T)
+      bef == ExecOrder(cx.trigs, t, "before", "insert")
+      aft == ExecOrder(cx.trigs, t, "after", "insert")
       RECURSIVE Go(_, _)
       Go(k, s) ==
         IF k > Len(stmt.rows) \/ s.err # "" THEN s
         ELSE LET b0 == BaseRow(T, stmt.cols, stmt.rows[k])
-                 x1 == RunBodies(bef, 1, NullRowW(w), [new |-> b0, aud |-> s.aud, err |-> ""])
-             IN IF x1.err # "" THEN [s EXCEPT !.err = x1.err]
-                ELSE LET ins == InsRow2(T, [rows |-> s.rows, hi |-> 0, first |-> 0, aff |-> 0, err |-> ""], "plain", <<>>, x1.new, 0)
+                 x1 == RunTrigs(cx, bef, 1, NullRowW(w), [new |-> b0, s |-> s])
+             IN IF x1.s.err # "" THEN x1.s
+                ELSE LET ins == InsRow2(T, [rows |-> x1.s.db[t], hi |-> 0, first |-> 0, aff |-> 0, err |-> ""], "plain", <<>>, x1.new, 0)
                          i1 == CHOOSE z \in ins : TRUE
-                     IN IF i1.err # "" THEN [s EXCEPT !.err = i1.err]
+                     IN IF i1.err # "" THEN [x1.s EXCEPT !.err = i1.err]
                         ELSE LET stored == i1.rows[Len(i1.rows)]
-                                 x2 == RunBodies(aft, 1, NullRowW(w), [new |-> stored, aud |-> x1.aud, err |-> ""])
-                             IN Go(k + 1, [rows |-> i1.rows, aud |-> x2.aud, err |-> x2.err])
-  IN Go(1, [rows |-> rows0, aud |-> <<>>, err |-> ""])
+                                 x2 == RunTrigs(cx, aft, 1, NullRowW(w), [new |-> stored, s |-> [x1.s EXCEPT !.db[t] = i1.rows]])
+                             IN Go(k + 1, x2.s)
+  IN Go(1, s0)
 
-TUpdate(T, created, stmt, rows0) ==
-  LET w == NCols(T)
-      bef == ExecOrder(created, "before", "update")
-      aft == ExecOrder(created, "after", "update")
-      sel == Targets(T, rows0, stmt.where, stmt.order, stmt.limit)
+TUpdate(cx, stmt, s0) ==
+  LET t == stmt.t
+      T == cx.tabs[t]
+      bef == ExecOrder(cx.trigs, t, "before", "update")
+      aft == ExecOrder(cx.trigs, t, "after", "update")
+      sel == Targets(T, s0.db[t], stmt.where, stmt.order, stmt.limit)
       RECURSIVE Go(_, _)
       Go(k, s) ==
         IF k > Len(sel) \/ s.err # "" THEN s
         ELSE LET i == sel[k]
-                 old == s.rows[i]
+                 old == s.db[t][i]
                  new0 == Regen(T, ApSets(stmt.set, 1, old, <<>>))
-                 x1 == RunBodies(bef, 1, old, [new |-> new0, aud |-> s.aud, err |-> ""])
+                 x1 == RunTrigs(cx, bef, 1, old, [new |-> new0, s |-> s])
                  nw == Regen(T, x1.new)
+                 rows == x1.s.db[t]
                  errs == (IF NotNullViol(T, nw) THEN {"notnull"} ELSE {}) \cup (IF CheckViol(T, nw) THEN {"check"} ELSE {})
-                 coll == \E j \in DOMAIN s.rows : j # i /\ Conf(T, s.rows[j], nw)
-             IN IF x1.err # "" THEN [s EXCEPT !.err = x1.err]
-                ELSE IF errs # {} THEN [s EXCEPT !.err = CHOOSE c \in errs : TRUE]
-                ELSE IF coll THEN [s EXCEPT !.err = "dup"]
-                ELSE LET x2 == RunBodies(aft, 1, old, [new |-> nw, aud |-> x1.aud, err |-> ""])
-                     IN Go(k + 1, [rows |-> [s.rows EXCEPT ![i] = nw], aud |-> x2.aud, err |-> x2.err])
-  IN Go(1, [rows |-> rows0, aud |-> <<>>, err |-> ""])
+                 coll == \E j \in DOMAIN rows : j # i /\ Conf(T, rows[j], nw)
+             IN IF x1.s.err # "" THEN x1.s
+                ELSE IF errs # {} THEN [x1.s EXCEPT !.err = CHOOSE c \in errs : TRUE]
+                ELSE IF coll THEN [x1.s EXCEPT !.err = "dup"]
+                ELSE LET x2 == RunTrigs(cx, aft, 1, old, [new |-> nw, s |-> [x1.s EXCEPT !.db[t][i] = nw]])
+                     IN Go(k + 1, x2.s)
+  IN Go(1, s0)
 
-TDelete(T, created, stmt, rows0) ==
-  LET w == NCols(T)
-      bef == ExecOrder(created, "before", "delete")
-      aft == ExecOrder(created, "after", "delete")
+TDelete(cx, stmt, s0) ==
+  LET t == stmt.t
+      T == cx.tabs[t]
+      w == NCols(T)
+      rows0 == s0.db[t]
+      bef == ExecOrder(cx.trigs, t, "before", "delete")
+      aft == ExecOrder(cx.trigs, t, "after", "delete")
       sel == Targets(T, rows0, stmt.where, stmt.order, stmt.limit)
       RECURSIVE Go(_, _)
       Go(k, s) ==
         IF k > Len(sel) \/ s.err # "" THEN s
         ELSE LET old == rows0[sel[k]]
-                 x1 == RunBodies(bef, 1, old, [new |-> NullRowW(w), aud |-> s.aud, err |-> ""])
-             IN IF x1.err # "" THEN [s EXCEPT !.err = x1.err]
-                ELSE LET x2 == RunBodies(aft, 1, old, [new |-> NullRowW(w), aud |-> x1.aud, err |-> ""])
-                     IN Go(k + 1, [s EXCEPT !.aud = x2.aud, !.err = x2.err])
-      r == Go(1, [rows |-> rows0, aud |-> <<>>, err |-> ""])
-  IN IF r.err # "" THEN r ELSE [r EXCEPT !.rows = RemoveIdx(rows0, Range(sel))]
+                 x1 == RunTrigs(cx, bef, 1, old, [new |-> NullRowW(w), s |-> s])
+             IN IF x1.s.err # "" THEN x1.s
+                ELSE Go(k + 1, RunTrigs(cx, aft, 1, old, [new |-> NullRowW(w), s |-> x1.s]).s)
+      r == Go(1, s0)
+  \* (the statement's own table is written by nobody else while it runs)
+  IN IF r.err # "" THEN r ELSE [r EXCEPT !.db[t] = RemoveIdx(rows0, Range(sel))]
 
-\* the outcome of a statement on the base table with rows rows0: [rows, aud (appended audit entries), kind, class]
-TOutcome(T, created, stmt, rows0) ==
-  LET r == CASE stmt.k = "insert" -> TInsert(T, created, stmt, rows0)
-             [] stmt.k = "update" -> TUpdate(T, created, stmt, rows0)
-             [] stmt.k = "delete" -> TDelete(T, created, stmt, rows0)
-  IN IF r.err # "" THEN [rows |-> rows0, aud |-> <<>>, kind |-> "err", class |-> r.err]
-     ELSE [rows |-> r.rows, aud |-> r.aud, kind |-> "ok", class |-> ""]
+TStmt(cx, stmt, s) ==
+  CASE stmt.k = "insert" -> TInsert(cx, stmt, s)
+    [] stmt.k = "update" -> TUpdate(cx, stmt, s)
+    [] stmt.k = "delete" -> TDelete(cx, stmt, s)
+
+\* the outcome of a top-level statement from the tables db and @cnt = cnt:
+\* [db, aud (audit entries appended), cnt, kind, class]
+TOutcome(cx, stmt, db, cnt) ==
+  LET r == TStmt(cx, stmt, [db |-> db, aud |-> <<>>, cnt |-> cnt, err |-> ""])
+  IN IF r.err # "" THEN [db |-> db, aud |-> <<>>, cnt |-> r.cnt, kind |-> "err", class |-> r.err]
+     ELSE [db |-> r.db, aud |-> r.aud, cnt |-> r.cnt, kind |-> "ok", class |-> ""]
 =============================================================================
